@@ -73,7 +73,22 @@ class Item(object):
         self.by = None
 
 
+_SLOW = {}      # clause -> number of instances the solver gave up on (per process)
+
+
 def discharge(item, timeout_ms, second_opinion=False):
+    if _SLOW.get(item.clause, 0) >= 2:
+        # the clause is already undecided twice in this process: further instances get a short budget
+        # (the verdict for the clause cannot become "discharged" any more)
+        timeout_ms = min(timeout_ms, 3000)
+        second_opinion = False
+    r = _discharge(item, timeout_ms, second_opinion)
+    if item.result == 'unknown':
+        _SLOW[item.clause] = _SLOW.get(item.clause, 0) + 1
+    return r
+
+
+def _discharge(item, timeout_ms, second_opinion=False):
     if item.extra.get('cover'):
         # reachability check behind a set of hypotheses: an assertion that must FAIL.
         # sat = the hypotheses are satisfiable (good); unsat = they are contradictory and every
